@@ -94,6 +94,15 @@ def run(tier, seed):
         for (a, b) in ranges:
             for op in ("acc", "rej"):
                 cases.append((s, a, b, op))
+    # sub-ranges that start deep in the text: a long stretch of ordinary text (no brace in it, longer than the range itself) in front of the marks
+    LEAD = "An introductory sentence without any markup, a good deal longer than the marks that follow it; and then some more words. "
+    for k, s in enumerate(scripts):
+        n = len(s["sc"])
+        if n == 0 or n > 4 or len(s["src"]) > len(LEAD) - 10 or k % (5 if tier == "quick" else 1): continue
+        s2 = dict(s, sc=[dict(t="txt", s=LEAD)] + list(s["sc"]), src=LEAD + s["src"])
+        for (a, b) in [(1, n + 1), (1, 2), (n, n + 1)]:
+            for op in ("acc", "rej"):
+                cases.append((s2, a, b, op))
     segs = []; per = 60
     def off(s, a, b):
         # item offsets are the spec's business: TLC re-derives and checks them; here they are taken from the spec's own Src of the prefix (lengths of item sources)
